@@ -30,6 +30,16 @@ theorem chanPush_BF (cfg : Cfg) (w : World) (f c : Nat) (x : Val) (ch : Bool) : 
       · rw [if_neg hlen]; exact ⟨rfl, rfl⟩
     | some r => simp only; (apply schedule_BF'; exact ⟨rfl, rfl⟩)
 
+theorem superPush_BF (cfg : Cfg) (w : World) (c : Nat) (x : Val) : BF w (superPush cfg w c x) := by
+  unfold superPush
+  split
+  · exact BF.refl _
+  · cases popLive cfg.pushSkipsStale w (w.chans c).rp with
+    | mk o rest =>
+      cases o with
+      | none => exact ⟨rfl, rfl⟩
+      | some r => simp only; (apply schedule_BF'; exact ⟨rfl, rfl⟩)
+
 theorem chanPopWake_BF (cfg : Cfg) (w : World) (c : Nat) (items : List Val) : BF w (chanPopWake cfg w c items) := by
   unfold chanPopWake
   cases popLive cfg.popSkipsStale w (w.chans c).wp with
@@ -148,6 +158,7 @@ theorem step_BF (cfg : Cfg) (w : World) (op : Op) (h1 : ∀ b, op ≠ .bodyStart
           · exact ⟨rfl, rfl⟩
       · exact ⟨rfl, rfl⟩
   | procFlag k x => exact ⟨rfl, rfl⟩
+  | superPush c x => exact superPush_BF _ _ _ _
   | thrWait f k => exact ⟨rfl, rfl⟩
   | thrDone k v e =>
     simp only [step, thrDone]
